@@ -270,6 +270,16 @@ func Dial(from string) *Client {
 	return cl
 }
 
+// DialTo is Dial to another proxy address.
+func DialTo(from, to string) *Client {
+	c, err := vnet.EnvDial(TCPAddr(from), to)
+	cl := &Client{C: c, EOFAt: -1, RSTAt: -1}
+	if err != nil {
+		cl.Err = err.Error()
+	}
+	return cl
+}
+
 // Send writes b in segments of at most seg bytes (seg <= 0: one write).
 func (c *Client) Send(b []byte, seg int) error {
 	if c.C == nil {
